@@ -58,44 +58,82 @@ def pump(gw, n):
             gw.tasks.transport.send(reply)
 
 
-def run_window(flavour, fmt, counts, workdir):
-    """counts = procs (before stop, at disconnect, at final save, after stop).  Returns
-    (order of stop's actions, ids handed out, node ids in the file, exception name or None)."""
+def run_window(flavour, fmt, counts, workdir, reconnecting=False):
+    """counts = (tick, p0, p1, p2, p3, p4, p5): id requests handled before everything (p0); if tick: a
+    periodic save with p1 requests handled while it writes (after the network was serialised); then stop()
+    with p2 requests at the moment of the disconnect, p3 between disconnect and final save, p4 while the final
+    save writes, p5 after stop() returned.  Returns (order of stop's actions, ids handed out, node ids in the
+    file, need_save at the end, exception name or None)."""
     import asyncio
+    tick, p0, p1, p2, p3, p4, p5 = counts
     path = os.path.join(workdir, f"win.{fmt}")
     for p in (path, path + ".bak"):
         if os.path.exists(p):
             os.remove(p)
     gw, conn = make(flavour, path)
     order = []
+    during = [0]
+    in_stop = [False]
     tr, pers = gw.tasks.transport, gw.tasks.persistence
-    real_disconnect, real_save = tr.disconnect, pers.save_sensors
+    real_disconnect, real_save, real_action = tr.disconnect, pers.save_sensors, pers._perform_file_action
 
     def disconnect():
         order.append("disconnect")
-        pump(gw, counts[1])
+        pump(gw, p2)
         return real_disconnect()
 
     def save_sensors():
-        order.append("save")
-        pump(gw, counts[2])
-        return real_save()
+        if in_stop[0]:
+            order.append("save")
+            pump(gw, p3)
+            during[0] = p4
+        try:
+            return real_save()
+        finally:
+            # nothing was written (nothing marked unsaved): the same lines are handled all the same
+            n, during[0] = during[0], 0
+            pump(gw, n)
+
+    def perform_file_action(filename, action):
+        result = real_action(filename, action)
+        if action == "save":
+            # the network has been serialised; the file has not been swapped in yet
+            n, during[0] = during[0], 0
+            pump(gw, n)
+        return result
     tr.disconnect = disconnect
     pers.save_sensors = save_sensors
+    pers._perform_file_action = perform_file_action
     exc = None
     try:
-        pump(gw, counts[0])
+        pump(gw, p0)
+        if tick:
+            during[0] = p1
+            pers.save_sensors()
+        in_stop[0] = True
         if flavour == "sync":
             gw.stop()
         else:
             loop = asyncio.new_event_loop()
+
+            async def dialling():
+                # what async_connect does between attempts; like it, it lets the cancellation through
+                await asyncio.sleep(3600)
+
+            async def stop_it():
+                if reconnecting:
+                    # the link was lost and the gateway is re-dialling when the user stops it
+                    tr.connect_task = asyncio.ensure_future(dialling())
+                    await asyncio.sleep(0)
+                await gw.stop()
             try:
-                loop.run_until_complete(gw.stop())
+                loop.run_until_complete(stop_it())
                 loop.run_until_complete(loop.shutdown_default_executor())
             finally:
                 loop.close()
-        pump(gw, counts[3])
-    except Exception as e:  # noqa: BLE001
+        in_stop[0] = False
+        pump(gw, p5)
+    except BaseException as e:  # noqa: BLE001  (CancelledError is a BaseException)
         exc = type(e).__name__
     handed = []
     for w in conn.written:
@@ -104,34 +142,50 @@ def run_window(flavour, fmt, counts, workdir):
             handed.append(int(parts[5]))
     err, loaded = pu.fresh_load(path)
     in_file = sorted(loaded) if err is None else ["load-raised"]
-    return order, handed, in_file, exc
+    return order, handed, in_file, int(bool(pers.need_save)), exc
 
 
 def model_line(counts):
+    tick, p0, p1, p2, p3, p4, p5 = counts
     k = itertools.count(1)
-    evs = [f"proc{next(k)}" for _ in range(counts[0] + counts[1])] + ["disconnect"]
-    evs += [f"proc{next(k)}" for _ in range(counts[2])] + ["save"]
-    evs += [f"proc{next(k)}" for _ in range(counts[3])]
+
+    def procs(n):
+        return [f"proc{next(k)}" for _ in range(n)]
+    evs = procs(p0)
+    if tick:
+        evs += ["saveStart"] + procs(p1) + ["saveEnd"]
+    evs += procs(p2) + ["disconnect"] + procs(p3) + ["saveStart"] + procs(p4) + ["saveEnd"] + procs(p5)
     return "STOPRUN " + " ".join(evs)
+
+
+def windows(tier):
+    top = 2 if tier == "quick" else 3
+    for tick in (0, 1):
+        for c in itertools.product(range(top), repeat=6):
+            if not tick and c[1]:
+                continue
+            yield (tick,) + c
 
 
 def part(res, prop, driver, tier):
     """Adds to `res` (the property's Result)."""
     work = tempfile.mkdtemp(prefix="verif-stopwin-")
     lines, impl, cases = ["STOPSCRIPT"], [None], [None]
-    top = 2 if tier == "quick" else 3
     try:
         for flavour in ("sync", "async"):
             for fmt in ("json", "pickle"):
-                for counts in itertools.product(range(top), repeat=4):
-                    if tier == "quick" and fmt == "pickle" and sum(counts) not in (1, 2):
+                for counts in windows(tier):
+                    if tier == "quick" and fmt == "pickle" and sum(counts[1:]) not in (1, 2):
                         continue
-                    order, handed, in_file, exc = run_window(flavour, fmt, counts, work)
+                    # asyncio flavour: every other window is a stop() issued while the gateway is re-dialling
+                    reconnecting = flavour == "async" and sum(counts) % 2 == 1
+                    order, handed, in_file, dirty, exc = run_window(flavour, fmt, counts, work, reconnecting)
                     res.evaluations += 1
-                    res.count("stop-window:" + flavour)
-                    if sum(counts):
+                    res.count("stop-window:" + flavour + (":reconnecting" if reconnecting else ""))
+                    if sum(counts[1:]):
                         res.distinct.add(digest(["stopwin", flavour, fmt, counts]))
-                    rep = {"op": "stop-window", "flavour": flavour, "fmt": fmt, "counts": list(counts)}
+                    rep = {"op": "stop-window", "flavour": flavour, "fmt": fmt, "counts": list(counts),
+                           "reconnecting": reconnecting}
                     key = {"kind": "stop-window", "flavour": flavour}
                     if exc is not None:
                         res.oracle_failures.append({"key": dict(key, what="raised"), "replay": rep,
@@ -141,12 +195,13 @@ def part(res, prop, driver, tier):
                     if lost:
                         res.oracle_failures.append({
                             "key": dict(key, what="handed-not-saved"), "replay": rep,
-                            "what": f"{flavour} gateway, {fmt}: ids {lost} went out on the wire while stop() was running "
-                                    f"but are not in the file it left (order of stop's actions: {order}; id requests "
-                                    f"before stop / at disconnect / at final save / after stop = {counts})"})
+                            "what": f"{flavour} gateway, {fmt}: ids {lost} went out on the wire but are not in the file "
+                                    f"stop() left (order of stop's actions: {order}; periodic save first: {bool(counts[0])}; "
+                                    f"id requests before / while the periodic save writes / at the disconnect / before "
+                                    f"the final save / while it writes / after stop = {counts[1:]})"})
                     lines.append(model_line(counts))
                     impl.append(f"handed={','.join(map(str, handed)) or '-'} "
-                                f"file={','.join(map(str, in_file)) or '-'} connected=0")
+                                f"file={','.join(map(str, in_file)) or '-'} connected=0 dirty={dirty}")
                     cases.append((flavour, fmt, counts, ",".join(order)))
     finally:
         shutil.rmtree(work, ignore_errors=True)
@@ -157,7 +212,7 @@ def part(res, prop, driver, tier):
     except Exception as e:  # noqa: BLE001
         res.corr_diffs.append({"name": f"{prop}-stop-window-driver", "case": "driver", "model": str(e)[:300], "impl": ""})
         return
-    script = out[0]
+    script = out[0].replace("saveStart,saveEnd", "save")
     nd = 0
     for m, i, c in zip(out[1:], impl[1:], cases[1:]):
         res.traces_validated += 1
@@ -175,7 +230,8 @@ def part(res, prop, driver, tier):
 def replay(r):
     work = tempfile.mkdtemp(prefix="verif-stopwin-")
     try:
-        order, handed, in_file, exc = run_window(r["flavour"], r["fmt"], tuple(r["counts"]), work)
+        order, handed, in_file, dirty, exc = run_window(r["flavour"], r["fmt"], tuple(r["counts"]), work,
+                                                        bool(r.get("reconnecting")))
     finally:
         shutil.rmtree(work, ignore_errors=True)
     print("order of stop's actions:", order, " handed out:", handed, " in the file:", in_file, " raised:", exc)
